@@ -28,6 +28,10 @@ var snapSeeds = []snapSeed{
 	{"divergent", 3, []uint64{1, 2, 3}, nil, []string{"T:1", "run", "update:1", "run", "update:1", "run",
 		"block:1:2", "block:1:3", "update:1", "update:1", "update:1", "update:1", "run", "disc", "elect:2", "run",
 		"update:2", "run", "update:2", "run", "update:2", "run", "snap:2", "run", "heal:1:2", "heal:1:3"}, nil},
+	// a follower that misses a membership change: n3 is cut off while node 4 is added and the leader snapshots and
+	// compacts; back in contact n3 needs that snapshot (which carries the newer membership)
+	{"config-lagging", 4, []uint64{1, 2, 3}, nil, []string{"T:1", "run", "update:1", "run", "block:1:3", "admin:1:add:4", "run",
+		"update:1", "run", "update:1", "run", "update:1", "run", "update:1", "run", "snap:1", "run", "heal:1:3"}, nil},
 	// a membership change is in flight while snapshots are requested
 	{"member", 3, []uint64{1, 2}, []uint64{3}, []string{"T:1", "run", "update:1", "run", "update:1", "run"}, []string{"promote:3", "remove:3"}},
 }
@@ -36,6 +40,9 @@ var snapSeeds = []snapSeed{
 func seedClients(seed snapSeed) []int {
 	if seed.name == "divergent" {
 		return []int{1}
+	}
+	if seed.name == "config-lagging" {
+		return []int{0, 2} // the leader, and the follower that takes its own snapshot later
 	}
 	return []int{0}
 }
@@ -72,6 +79,14 @@ func scenSnap(seed snapSeed, dev int, eagerFSM bool, orderCost bool, maxSnaps in
 func snapScenarios(tier string) []*simScenario {
 	var out []*simScenario
 	for _, s := range snapSeeds {
+		if s.name == "divergent" || s.name == "config-lagging" {
+			d := 2
+			if tier == "thorough" {
+				d = 3
+			}
+			out = append(out, scenSnap(s, d, true, false, 1))
+			continue
+		}
 		if tier == "thorough" {
 			out = append(out, scenSnap(s, 2, true, false, 2), scenSnap(s, 4, false, true, 2))
 		} else {
